@@ -231,4 +231,37 @@ theorem place_aux_shape (refl : Bool) (pre post out : List Tok) (x : VT) (f w : 
   rw [← List.append_assoc, hr']
   simp
 
+/-- the guard of loop 2: a pronoun recognised as already elided (`elidedForm`: since commit c4595d2 the FIRST WORD of
+    its realization ends with an apostrophe; before, the realization itself) is never popped -/
+theorem isCliticPro_elided (x : ProT) (f : Str) (h : elidedForm f = true) : isCliticPro x f = false := by
+  simp [isCliticPro, h]
+
+theorem takeWhile_all {α} (p : α → Bool) (l : List α) (h : ∀ c ∈ l, p c = true) : l.takeWhile p = l := by
+  induction l with
+  | nil => rfl
+  | cons a r ih =>
+    simp [List.takeWhile, h a List.mem_cons_self, ih (fun c hc => h c (List.mem_cons_of_mem _ hc))]
+
+/-- on a realization that is one bare word (no tag, no punctuation, no space) both versions of the guard agree -/
+theorem elidedForm_bare (f : Str) (hne : f ≠ []) (hw : ∀ c ∈ f, isWordCh c = true) : elidedForm f = endsWith f ['\''] := by
+  unfold elidedForm
+  split
+  · have hs : skipPre false f = f := by
+      cases f with
+      | nil => exact absurd rfl hne
+      | cons c cs =>
+        have hc := hw c List.mem_cons_self
+        have hlt : (c == '<') = false := by
+          cases hcl : c == '<'
+          · rfl
+          · have : c = '<' := by simpa using hcl
+            subst this; revert hc; decide
+        simp [skipPre, hlt, hc]
+    have ht : f.takeWhile isWordCh = f := takeWhile_all _ f hw
+    simp only [firstWord, hs, ht]
+    cases f with
+    | nil => exact absurd rfl hne
+    | cons c cs => simp
+  · rfl
+
 end Pyrealb.ClauseFr
